@@ -241,6 +241,22 @@ func (e *Exec) callStatic(fr *Frame, st *BState, x *ssa.Call, f *ssa.Function, a
 		e.havocCalleeFrame(st, st.clone(), f, args, selectorOf(f), false)
 	} else {
 		e.havocPointees(st, args, "call."+f.Name()+".")
+		// a library function that is handed a function literal may call it any number of times: whatever the literal
+		// may write, produce or invoke is havoc'd as for a call of the literal itself
+		for i, a := range x.Call.Args {
+			var cf *ssa.Function
+			if mc, ok := a.(*ssa.MakeClosure); ok {
+				cf, _ = mc.Fn.(*ssa.Function)
+			} else if i < len(args) {
+				if mc, ok := closureOf[args[i]]; ok {
+					cf, _ = mc.Fn.(*ssa.Function)
+				}
+			}
+			if cf != nil && len(cf.Blocks) > 0 {
+				e.note("a library call is handed a function literal: the literal's frame is havoc'd")
+				e.havocCalleeFrame(st, st.clone(), cf, nil, "callback of "+f.Name(), false)
+			}
+		}
 	}
 	if tup, ok := x.Type().(*types.Tuple); ok && tup.Len() == 0 {
 		return &TupleV{}
